@@ -445,3 +445,75 @@ func C05_Deep() {
 	}
 	verif.Reach("checked")
 }
+
+type TF2 struct {
+	Name string
+	A    float64
+	B    float64
+	C    float64
+}
+
+// C05_FloatPairs: CONCRETE INSTANCES - float fields whose literals are close
+// (equal as float32, or equal up to the last bits) each keep their own value.
+func C05_FloatPairs() {
+	pairs := [][2]string{
+		{"0.1", "0.10000000001"}, {"1e300", "1.7976931348623157e308"}, {"0.0", "5e-324"},
+		{"1.5", "1.5000000001"}, {"16777216.0", "16777217.0"}, {"1e-46", "1e-47"},
+		{"0.30000000000000004", "0.3"}, {"2.5", "2.5"},
+	}
+	want := [][2]float64{
+		{0.1, 0.10000000001}, {1e300, 1.7976931348623157e308}, {0.0, 5e-324},
+		{1.5, 1.5000000001}, {16777216.0, 16777217.0}, {1e-46, 1e-47},
+		{0.30000000000000004, 0.3}, {2.5, 2.5},
+	}
+	i := verif.Choice("pair", len(pairs))
+	src := "def tf2 \"n\" {\n a = " + pairs[i][0] + "\n b = " + pairs[i][1] + "\n c = " + pairs[i][0] + "\n}\nbind tf2 -> struct\n"
+	if verif.Choice("order", 2) == 1 {
+		src = "def tf2 \"n\" {\n b = " + pairs[i][1] + "\n a = " + pairs[i][0] + "\n c = " + pairs[i][0] + "\n}\nbind tf2 -> struct\n"
+	}
+	var got TF2
+	out, log := &symio.Writer{}, &symio.Writer{}
+	err := bcl.Unmarshal([]byte(src), &got, bcl.OptOutput(out), bcl.OptLogger(log))
+	verif.Observe("err", err)
+	verif.Assert(err == nil, "unmarshal succeeds")
+	verif.Assert(sameFloat(got.A, want[i][0]) && sameFloat(got.B, want[i][1]) && sameFloat(got.C, want[i][0]), "each float field keeps its own value")
+	verif.Reach("checked")
+}
+
+type TRec struct {
+	Name string
+	Port int
+	Host string
+}
+
+// C05_ManyRecords: CONCRETE INSTANCES - a slice of n records, so that the
+// program holds more than 240 (and more than 2287) constants; every record is
+// reproduced.
+func C05_ManyRecords() {
+	n := []int{60, 79, 80, 81, 82, 120, 800}[verif.Choice("n", 7)]
+	src := ""
+	for i := 0; i < n; i++ {
+		src += "def trec \"r" + strconv.Itoa(i) + "\" {\n port = " + strconv.Itoa(8000+i) + "\n host = \"h" + strconv.Itoa(i) + "\"\n}\n"
+	}
+	src += "bind trec:all -> slice\n"
+	var got []TRec
+	out, log := &symio.Writer{}, &symio.Writer{}
+	err := bcl.Unmarshal([]byte(src), &got, bcl.OptOutput(out), bcl.OptLogger(log))
+	verif.Observe("err", err)
+	verif.Assert(err == nil, "unmarshal succeeds")
+	verif.Assert(len(got) == n, "one element per record")
+	for i := range got {
+		verif.Assert(got[i].Name == "r"+strconv.Itoa(i) && got[i].Port == 8000+i && got[i].Host == "h"+strconv.Itoa(i), "record reproduced")
+	}
+	verif.Reach("checked")
+}
+
+// C05_LocalTypes: two distinct struct types with the same name (local to two
+// functions) and different tag layouts, bound one after the other.
+func C05_LocalTypes() {
+	v, w := verif.Int("v"), verif.Int("w")
+	verif.Assert(c15LocalA(v) == v, "first type binds its tagged field")
+	verif.Assert(c15LocalB(w) == w, "second type (same name, other layout) binds its own tagged field")
+	verif.Assert(c15LocalA(w) == w, "first type again")
+	verif.Reach("checked")
+}
